@@ -300,6 +300,7 @@ def _fld(fl, R, rng, budget, seed=0, sizes=None, **kw):
     fld-format, fld-reader[:empty], fld-active, crash:<Type>@<function>; skipped fld-rowcount cases are listed in `skipped_detail` as
     [n, v, observed rows, expected rows]."""
     import io
+    import numpy as np
     S = fl.FldExporter.ScopeOfValues
     fl.settings.decimals = 6
     # (1) grid SIZE, all v = 1..2000, AllVariables.  n = 1: the full export of a constant engine (no outputs): rows = v.
@@ -368,6 +369,35 @@ def _fld(fl, R, rng, budget, seed=0, sizes=None, **kw):
         text = R.lib("FldExporter.to_string_from_scope", call, ex.to_string_from_scope, e, v, S.AllVariables, {e.input_variables[i] for i in act})
         if text is not _CRASHED:
             _judge_table(R, text, e, (" ", False, True, False), 6, exp, call, "fld-active", v=v)
+    # (2c) a DESCENDING range (minimum > maximum, e.g. `range: 0.000 -40.000`): the grid still runs from minimum to maximum inclusive
+    for v, scope in ((5, "EachVariable"), (2, "EachVariable"), (9, "AllVariables")):
+        R.cases += 1; R.distinct += 1
+        rngs = [(10.0, -10.0), (0.0, 1.0)]
+        e = fl.Engine(name="desc", input_variables=[fl.InputVariable(name=f"x{i}", minimum=lo, maximum=hi, terms=[]) for i, (lo, hi) in enumerate(rngs)], output_variables=[], rule_blocks=[])
+        c = v if scope == "EachVariable" else _root(v, 2)
+        exp = _grid(rngs, [c, c])
+        call = (f"e = fl.Engine('desc', input_variables=[fl.InputVariable(f'x{{i}}', minimum=lo, maximum=hi) for i, (lo, hi) in enumerate({rngs})]); "
+                f"fl.settings.decimals = 6; fl.FldExporter(headers=False, output_values=False).to_string_from_scope(e, {v}, fl.FldExporter.ScopeOfValues.{scope})")
+        text = R.lib("FldExporter.to_string_from_scope", call, ex.to_string_from_scope, e, v, S[scope])
+        if text is not _CRASHED:
+            _judge_table(R, text, e, (" ", False, True, False), 6, exp, call, "fld-coordinates", v=v)
+    # (2d) FORMAT of given values: FldExporter.write prints the input values it is given with exactly `decimals` decimals - the decimal rounding of the double
+    # itself ("%0.<d>f"), also where the double sits next to a decimal half-way point (0.05, 0.15, 2.5, 0.125, 0.005)
+    e1 = fl.Engine(name="fmt", input_variables=[fl.InputVariable(name="x0", minimum=-10.0, maximum=10.0, terms=[])], output_variables=[], rule_blocks=[])
+    xs_ = [0.05, 0.15, 0.25, 0.35, 0.45, 0.55, 0.65, 0.75, 0.85, 0.95, 0.125, 0.375, 2.5, 3.5, -0.5, -1.5, 0.005, 0.015, 0.025, 0.045, 1.005, 2.675, 1e-7, 7.0, -0.0004]
+    for d in (0, 1, 2, 3):
+        R.cases += 1; R.distinct += 1
+        fl.settings.decimals = d
+        w = io.StringIO()
+        call = f"fl.settings.decimals = {d}; w = io.StringIO(); fl.FldExporter(headers=False, output_values=False).write(<engine with one input, range [-10, 10]>, w, np.array({xs_}).reshape(-1, 1)); w.getvalue()"
+        r_ = R.lib("FldExporter.write", call, fl.FldExporter(headers=False, output_values=False).write, e1, w, np.array(xs_).reshape(-1, 1))
+        if r_ is not _CRASHED:
+            got = w.getvalue().split()
+            want = [f"%0.{d}f" % x for x in xs_]
+            if got != want:
+                k_ = next((i for i, (a, b) in enumerate(zip(got, want)) if a != b), min(len(got), len(want)))
+                R.fail("fld-format:exact", f"{want[k_] if k_ < len(want) else '<end>'} for the input value {xs_[k_] if k_ < len(xs_) else None!r} at decimals={d} (all: {want})", f"{got[k_] if k_ < len(got) else '<end>'} (all: {got})", call)
+    fl.settings.decimals = 6
     # (3) complete comparison (header, switches, separator, decimals, outputs) on engines with 1-4 inputs, both scopes + reader
     engines = []
     for n in (1, 2, 3, 4):
